@@ -70,9 +70,9 @@ structure Page where
   bookmarks : List Bookmark
   deriving Repr, DecidableEq, BEq, Inhabited
 
-/-- What `Document.__init__` stores and `copy` passes on.  `hasHtml` is the attribute `_html`, which
-only `Document._render` sets (after the constructor); `metadata`, `urlFetcher`, `fontConfig` are object
-identities. -/
+/-- What `Document.__init__` stores and `copy` passes on.  `hasHtml`: the attribute `_html` is set and not `None`
+(`Document._render` sets it after the constructor, `copy` hands it on); `metadata`, `urlFetcher`, `fontConfig` are
+object identities. -/
 structure Document where
   pages : List Page
   metadata : Nat
@@ -91,12 +91,15 @@ inductive Sel where
 ```
 if pages == 'all': pages = self.pages
 elif not isinstance(pages, list): pages = list(pages)
-return type(self)(pages, self.metadata, self.url_fetcher, self.font_config)
+document = type(self)(pages, self.metadata, self.url_fetcher, self.font_config)
+document._html = getattr(self, '_html', None)
+return document
 ```
-The constructor does not set `_html`. -/
+The copy carries the source HTML of the original (`None` when the original has none: reading
+`None.etree_element` is the same `AttributeError` as a missing attribute, so `hasHtml` stays `false`). -/
 def copy (d : Document) : Sel → Document
-  | .all => { d with hasHtml := false }
-  | .pages ps => { d with pages := ps, hasHtml := false }
+  | .all => d
+  | .pages ps => { d with pages := ps }
 
 /-- Inner loop of the first pass of `resolve_links` over one page's `anchors.items()`:
 `if anchor_name not in anchors: paged_anchors[-1].append(...); anchors.add(anchor_name)`.
